@@ -10,6 +10,61 @@ from extract import read, strip_comments, enum_variants, Fail
 REL = "crates/aranya-runtime/src/vm_policy/io.rs"
 
 
+SIGN_BIT_EXPRS = [r"\(?\s*1(?:_?i64|_?u64)?\s*<<\s*63\s*\)?", r"i64::MIN(?:\s+as\s+u64)?",
+                  r"0x8000_?0000_?0000_?0000(?:_?u64|_?i64)?(?:\s+as\s+i64)?", r"\(?\s*1u64\s*<<\s*63\s*\)?\s+as\s+i64"]
+
+
+def fn_body(src, name):
+    m = re.search(r"\bfn\s+" + re.escape(name) + r"\s*\(", src)
+    if not m:
+        raise Fail(f"{REL}: fn {name} not found")
+    # skip the (possibly destructuring) parameter list, then the body starts at the next `{`
+    k = m.end(); depth = 1
+    while depth and k < len(src):
+        if src[k] == "(": depth += 1
+        elif src[k] == ")": depth -= 1
+        k += 1
+    i = src.find("{", k) + 1
+    if i <= 0:
+        raise Fail(f"{REL}: fn {name} has no body")
+    depth = 1; j = i
+    while depth and j < len(src):
+        if src[j] == "{": depth += 1
+        elif src[j] == "}": depth -= 1
+        j += 1
+    return src[i:j - 1]
+
+
+def resolve_sign_flip(src):
+    """rewrite `x ^ CONST` (CONST a private const equal to the i64 sign bit) and calls of a same-file
+    one-argument fn whose whole body is `arg ^ <sign bit>` into the literal form `x ^ (1 << 63)`"""
+    # 1. consts equal to the sign bit
+    for m in list(re.finditer(r"\bconst\s+(\w+)\s*:\s*(?:i64|u64)\s*=\s*([^;]+);", src)):
+        if any(re.fullmatch(p, m.group(2).strip()) for p in SIGN_BIT_EXPRS):
+            src = re.sub(r"(?<![\w:])" + re.escape(m.group(1)) + r"\b(?!\s*:)", "(1 << 63)", src)
+    # 2. one level of private fns `fn f(a: i64) -> i64 { a ^ (1 << 63) }`
+    for m in list(re.finditer(r"(?:pub\(crate\)\s+)?(?:const\s+)?fn\s+(\w+)\s*\(\s*(\w+)\s*:\s*(?:i64|u64)\s*\)\s*->\s*(?:i64|u64)\s*\{\s*([^{}]*?)\s*\}", src)):
+        name, arg, body = m.group(1), m.group(2), m.group(3)
+        a = re.escape(arg)
+        if not (re.fullmatch(a + r"\s*\^\s*\(1 << 63\)", body) or re.fullmatch(r"\(1 << 63\)\s*\^\s*" + a, body)):
+            continue
+        out, pos = "", 0
+        for c in re.finditer(r"(?<![\w.])" + re.escape(name) + r"\(", src):
+            if c.start() < pos or src[max(0, c.start() - 3):c.start()].endswith("fn "):
+                continue
+            i = c.end(); depth = 1; j = i
+            while depth and j < len(src):
+                if src[j] == "(": depth += 1
+                elif src[j] == ")": depth -= 1
+                j += 1
+            inner = src[i:j - 1].strip()
+            inner = inner[1:].strip() if inner.startswith("*") else inner
+            out += src[pos:c.start()] + inner + " ^ (1 << 63)"
+            pos = j
+        src = out + src[pos:]
+    return src
+
+
 def gen():
     src = strip_comments(read(REL))
     m = re.search(r"#\[repr\(u8\)\]\s*enum\s+KeyType\b", src)
@@ -42,20 +97,44 @@ def gen():
         de[mm.group(1)] = int(pat)
     if sorted(de) != sorted(want):
         raise Fail(f"{REL}: from_u8 covers {sorted(de)}, expected {sorted(want)}")
-    # shape facts
+    # shape facts, recognised up to harmless refactors: private consts equal to the sign bit and
+    # one level of private (const) fn calls whose body is the flip are resolved first
+    norm = resolve_sign_flip(src)
+    ser_body = fn_body(norm, "ser_key")
+    de_body = fn_body(norm, "deser_key")
+    FLIP = r"\^\s*\(1 << 63\)"
+    for body, what in ((ser_body, "ser_key"), (de_body, "deser_key")):
+        if re.search(r"_le_bytes|_ne_bytes|swap_bytes|rotate_", body):
+            raise Fail(f"{REL}: {what} uses a non-big-endian conversion")
+    def arm(body, start, stops, what):
+        i = body.find(start)
+        if i < 0:
+            raise Fail(f"{REL}: cannot locate {what}")
+        ends = [body.find(x, i + len(start)) for x in stops]
+        ends = [e for e in ends if e >= 0]
+        return body[i:min(ends)] if ends else body[i:]
+    H = "HashableValue::"
+    ser_int = arm(ser_body, H + "Int", [H + "Bool"], "ser_key Int arm")
+    ser_bool = arm(ser_body, H + "Bool", [H + "String"], "ser_key Bool arm")
+    ser_enum = arm(ser_body, H + "Enum", ["identifier_len.as_slice()"], "ser_key Enum arm")
+    de_int = arm(de_body, "KeyType::Int =>", ["KeyType::Bool =>"], "deser_key Int arm")
+    de_enum = arm(de_body, "KeyType::Enum =>", ["Ok(FactKey"], "deser_key Enum arm")
     need = [
-        (r"let identifier_len = \(identifier\.len\(\) as u64\)\.to_be_bytes\(\);", "8-byte big-endian identifier length"),
-        (r"&HashableValue::Int\(int\)\s*=>\s*\{\s*int_bytes = i64::to_be_bytes\(int \^ \(1 << 63\)\);", "ser_key Int arm: sign-bit flip + big-endian"),
-        (r"HashableValue::Enum\(id, value\)\s*=>\s*\{\s*let int_bytes = i64::to_be_bytes\(value \^ \(1 << 63\)\);\s*bytes = \[int_bytes\.as_slice\(\), id\.as_str\(\)\.as_bytes\(\)\]\.concat\(\);", "ser_key Enum arm: flipped value then name"),
-        (r"let bytes = if bool \{ &\[1\] \} else \{ &\[0\] \};", "ser_key Bool arm"),
-        (r"HashableValue::String\(string\)\s*=>\s*\(KeyType::String, string\.as_str\(\)\.as_bytes\(\)\)", "ser_key String arm"),
-        (r"HashableValue::Id\(id\)\s*=>\s*\(KeyType::Id, id\.as_bytes\(\)\)", "ser_key Id arm"),
-        (r"\[\s*identifier_len\.as_slice\(\),\s*identifier\.as_bytes\(\),\s*&\[tag as u8\],\s*value_bytes,\s*\]\s*\.concat\(\)", "ser_key layout len ++ identifier ++ tag ++ value"),
-        (r"let int = i64::from_be_bytes\(bytes\) \^ \(1 << 63\);", "deser_key Int arm: unflip"),
-        (r"let value = i64::from_be_bytes\(\*value_bytes\) \^ \(1 << 63\);", "deser_key Enum arm: unflip"),
+        (ser_body, r"let identifier_len = \(identifier\.len\(\) as u64\)\.to_be_bytes\(\);", "8-byte big-endian identifier length"),
+        (ser_int, r"i64::to_be_bytes\(\s*\*?\w+\s*" + FLIP + r"\s*\)", "ser_key Int arm: sign-bit flip + big-endian"),
+        (ser_int, r"KeyType::Int\b", "ser_key Int arm: tag"),
+        (ser_enum, r"i64::to_be_bytes\(\s*\*?\w+\s*" + FLIP + r"\s*\)", "ser_key Enum arm: sign-bit flip + big-endian"),
+        (ser_enum, r"\[\s*\w+\.as_slice\(\),\s*\w+\.as_str\(\)\.as_bytes\(\)\s*\]\s*\.concat\(\)", "ser_key Enum arm: flipped value then name"),
+        (ser_enum, r"KeyType::Enum\b", "ser_key Enum arm: tag"),
+        (ser_bool, r"if \w+ \{ &\[1\] \} else \{ &\[0\] \}", "ser_key Bool arm"),
+        (ser_body, r"HashableValue::String\(\w+\)\s*=>\s*\(KeyType::String, \w+\.as_str\(\)\.as_bytes\(\)\)", "ser_key String arm"),
+        (ser_body, r"HashableValue::Id\(\w+\)\s*=>\s*\(KeyType::Id, \w+\.as_bytes\(\)\)", "ser_key Id arm"),
+        (ser_body, r"\[\s*identifier_len\.as_slice\(\),\s*identifier\.as_bytes\(\),\s*&\[tag as u8\],\s*value_bytes,\s*\]\s*\.concat\(\)", "ser_key layout len ++ identifier ++ tag ++ value"),
+        (de_int, r"i64::from_be_bytes\(\s*\*?\w+\s*\)\s*" + FLIP, "deser_key Int arm: unflip"),
+        (de_enum, r"i64::from_be_bytes\(\s*\*?\w+\s*\)\s*" + FLIP, "deser_key Enum arm: unflip"),
     ]
-    for pat, what in need:
-        if not re.search(pat, src):
+    for body, pat, what in need:
+        if not re.search(pat, body):
             raise Fail(f"{REL}: cannot locate {what}")
     out = ["namespace AranyaV.Gen.FactKeyTags", "",
            f"/-- `tag as u8` of `KeyType` in {REL} (declaration index, `#[repr(u8)]`) -/"]
